@@ -70,6 +70,8 @@ func checks() []check {
 		{ID: "C15", Level: "model_checking", Parts: []part{
 			{Name: "bandwidth", Pkg: "pkg/k8s", Run: "^TestVerifC15Bandwidth$"},
 			{Name: "numa-hints", Pkg: "pkg/controller/pod-eni", Run: "^TestVerifC15Numa$"},
+			{Name: "webhook-annotations", Pkg: "pkg/controller/webhook", Run: "^TestVerifC15Webhook$"},
+			{Name: "stored-records", Pkg: "daemon", Run: "^TestVerifC15Records$", Sets: []string{"weave"}, Weave: []string{"daemon", "pkg/eni", "pkg/storage"}, Netns: true, ShardsQ: 8, ShardsT: 8},
 		}},
 		{ID: "C18", Level: "model_checking", Parts: []part{
 			{Name: "admission", Pkg: "pkg/controller/webhook", Run: "^TestVerifC18$"},
